@@ -128,8 +128,23 @@ theorem onPodAdd_good {s : State} {n : Nat} {p : PodObj} (h : Good s) (hpre : Po
       | some e => simpa using h
       | none => simpa using addPodTo_good h hpre.nonneg hq (hpre.quota q hq).1 he
 
-theorem onPodDelete_good {s : State} {n : Nat} {p : PodObj} (h : Good s) (hpre : PodPre s n p) :
-    Good (onPodDelete s n p) := by
+theorem findPod_eq_getPod (ps : List Pod) (i : Nat) : findPod ps i = getPod ps i := by
+  induction ps with
+  | nil => rfl
+  | cons p t ih => simp [findPod, getPod, ih]
+
+theorem cachedObj_id (s : State) (n : Nat) (p : PodObj) : (cachedObj s n p).id = p.id := by
+  unfold cachedObj
+  cases get? s n with
+  | none => rfl
+  | some q =>
+    simp only
+    cases findPod q.pods p.id <;> rfl
+
+/-- OnPodDelete gives back the cached amounts, so it needs NO informer consistency: only that the group declares
+the dimension -/
+theorem onPodDelete_good' {s : State} {n : Nat} {p : PodObj} (h : Good s)
+    (hmax : ∀ q, get? s n = some q → q.max.isSome = true) : Good (onPodDelete s n p) := by
   unfold onPodDelete existsIn
   cases hq : get? s n with
   | none => simpa using h
@@ -138,8 +153,14 @@ theorem onPodDelete_good {s : State} {n : Nat} {p : PodObj} (h : Good s) (hpre :
     cases he : getPod q.pods p.id with
     | none => simpa using h
     | some e =>
-      obtain ⟨hmax, hcons⟩ := hpre.quota q hq
-      obtain ⟨hreq, hnp⟩ := hcons e he
-      simpa using removePodFrom_good h hpre.nonneg hq hmax he hreq hnp false
+      have hc : cachedObj s n p = { p with req := e.req, np := e.np } := by
+        simp [cachedObj, hq, findPod_eq_getPod, he]
+      have hnn : 0 ≤ e.req := (h.params q (get?_mem hq)).2 e (getPod_some he).1
+      simp only [Option.isSome_some, if_true, hc]
+      exact removePodFrom_good (p := { p with req := e.req, np := e.np }) h hnn hq (hmax q hq) he rfl rfl false
+
+theorem onPodDelete_good {s : State} {n : Nat} {p : PodObj} (h : Good s) (hpre : PodPre s n p) :
+    Good (onPodDelete s n p) :=
+  onPodDelete_good' h (fun q hq => (hpre.quota q hq).1)
 
 end KoordVerif.C01
